@@ -101,6 +101,8 @@ import PsVerif
 #print axioms PsVerif.smooth_lower_bound
 #print axioms PsVerif.row_bound
 #print axioms PsVerif.group_lasso_kkt_sufficient
+#print axioms PsVerif.binary_fit_rescales
+#print axioms PsVerif.binary_offset_any_units
 -- C11
 #print axioms PsVerif.takeCols_takeCols
 #print axioms PsVerif.takeCols_get
